@@ -4,6 +4,8 @@
      Singles : <<a, canary>>            for every atom a
      Pairs   : <<a, b, canary>>         a = a nonfatal request that runs the external `install`
                                         or cannot succeed, b = any fault-free request
+     Same    : <<a, b, canary>>         a = a nonfatal request hit by an injected fault, b = a valid request
+                                        to the same helper (all of them are replayed in every tier)
    The canary is a plain successful doins into a directory nobody else uses: it shows that the channel (and the helper objects,
    which live as long as the build) are still in step after what came before.
    Output: the atoms once ([kind "atom", n, a]; n = 0 is the canary template), then the streams
@@ -25,9 +27,15 @@ External == {"doins-ext-C", "doins-ext-symmode", "doins-ext-two", "doins-ext-r",
 First == {a \in Plain : a.nonfatal /\ (a.t.id \in External \/ ~a.t.feasible)}
 Singles == {<<Num(a), 0>> : a \in Atoms}
 Pairs == {<<Num(x[1]), Num(x[2]), 0>> : x \in {y \in First \X Plain : y[1].t.eapi = y[2].t.eapi}}
+\* the same helper OBJECT again after one of its requests failed half way (injected fault, nonfatal):
+\* whatever the failure left behind in the object must not leak into the next, valid request
+Same == {<<Num(x[1]), Num(x[2]), 0>> : x \in {y \in Atoms \X Plain :
+            /\ y[1].fault # "" /\ y[1].nonfatal
+            /\ y[2].t.helper = y[1].t.helper /\ y[2].t.eapi = y[1].t.eapi /\ y[2].t.feasible /\ y[2].nonfatal}}
 Out == <<[kind |-> "atom", n |-> 0, a |-> CanaryAtom, idx |-> <<>>]>>
        \o [n \in DOMAIN AtomSeq |-> [kind |-> "atom", n |-> n, a |-> AtomSeq[n], idx |-> <<>>]]
        \o SetToSeq({[kind |-> "single", n |-> 0, a |-> CanaryAtom, idx |-> s] : s \in Singles})
        \o SetToSeq({[kind |-> "pair", n |-> 0, a |-> CanaryAtom, idx |-> s] : s \in Pairs})
+       \o SetToSeq({[kind |-> "same", n |-> 0, a |-> CanaryAtom, idx |-> s] : s \in Same})
 ASSUME ndJsonSerialize(IOEnv.OUT, Out)
 =========================================================================
